@@ -491,7 +491,46 @@ def _names(expr):
         re.findall(r"lambda\s+([^:]*):", expr) and [x.strip() for g in re.findall(r"lambda\s+([^:]*):", expr) for x in g.split(",")])
 
 
+def rule_mpc_lexer(ctx, repo):
+    """MATPOWER text reader: a line recognised as the end of a matrix section is dropped.  The recognising pattern (a regex
+    literal in the source) is evaluated, with the method the code uses (search/match), on witness lines that carry a data row and
+    the closing bracket together -- valid MATLAB.  If it recognises them, and the branch neither parses the row first nor is
+    restricted to lines without data, the last row of such a matrix is lost."""
+    import re as _re
+    f = F.function(repo, MPC, "m2mpc")
+    pats = {}
+    for st in walk_noscope(f.fn):
+        if isinstance(st, ast.Assign) and len(st.targets) == 1 and isinstance(st.targets[0], ast.Name) and isinstance(st.value, ast.Call) \
+                and dotted(st.value.func) == "re.compile" and st.value.args and isinstance(st.value.args[0], ast.Constant):
+            pats[st.targets[0].id] = st.value.args[0].value
+    witnesses = ["1 2 0.01 0.1 0.02 250 250 250 0 0 1 -360 360 ]", "1 2 0.01 0.1 0.02 250 250 250 0 0 1 -360 360]", "5 3 1.0 ]"]
+    n = 0
+    for t in walk_noscope(f.fn):
+        if not isinstance(t, ast.If):
+            continue
+        c = t.test
+        if isinstance(c, ast.Call) and isinstance(c.func, ast.Attribute) and c.func.attr in ("search", "match", "fullmatch") and \
+                isinstance(c.func.value, ast.Name) and c.func.value.id in pats:
+            closes = any(isinstance(x, ast.Assign) and dotted(x.targets[0]) == "field" and isinstance(x.value, ast.Constant) and x.value.value is None
+                         for x in t.body)
+            if not closes:
+                continue
+            n += 1
+            rx = _re.compile(pats[c.func.value.id])
+            hit = [w for w in witnesses if getattr(rx, c.func.attr)(w)]
+            parses = any(isinstance(x, ast.Call) and isinstance(x.func, ast.Attribute) and x.func.attr in ("append", "extend") for b in t.body for x in ast.walk(b))
+            splits = any("split(']')" in src(b) or 'split("]")' in src(b) for b in t.body)
+            drops = any(isinstance(x, ast.Continue) for x in t.body)
+            ok = not hit or parses or splits or not drops
+            ctx.check(ok, "C13.mpc-lexer", "m2mpc/section-end", "the section-end pattern %r does not swallow a data row" % pats[c.func.value.id],
+                      "the pattern %r (.%s) also recognises `%s` -- a data row with the closing bracket on the same line -- and the branch drops the "
+                      "line: the last row of that matrix is lost" % (pats[c.func.value.id], c.func.attr, hit[0] if hit else ""), f.W(t))
+    if n == 0:
+        ctx.undecided("C13.mpc-lexer", "m2mpc/section-end", "section-end branch not recognised", f.W())
+
+
 def run(ctx):
+    ctx.rule("C13.mpc-lexer", "MATPOWER text reader: the section-end pattern cannot swallow a data row (regex evaluated on witness lines)", 1)
     ctx.rule("C13.mpc-inverse", "every column written by system2mpc is read back by mpc2system into the same parameter with the "
              "inverse scale; bus type codes agree", 30)
     ctx.rule("C13.mpc-branch", "branch records: tap/shift classification evaluated over all (ratio, angle) classes", 1)
@@ -509,6 +548,7 @@ def run(ctx):
     models = elab.load_models()
     rule_mpc(ctx, repo, models)
     rule_mpc_branch(ctx, repo)
+    rule_mpc_lexer(ctx, repo)
     rule_import_bases(ctx, repo, models)
     rule_raw_columns(ctx, repo)
     rule_raw_formulas(ctx, repo)
